@@ -29,7 +29,7 @@ pub fn ty_text(t: &Ty, u: &Universe) -> String {
         Ty::Param => "T".into(),
         Ty::GenericInst(i) => if def_needs_lifetime(&u.defs[*i], u) { format!("{}<'a, u16>", u.defs[*i].name()) } else { format!("{}<u16>", u.defs[*i].name()) }
         Ty::GenericInstOpt(i) => if def_needs_lifetime(&u.defs[*i], u) { format!("{}<'a, Option<u16>>", u.defs[*i].name()) } else { format!("{}<Option<u16>>", u.defs[*i].name()) }
-        Ty::NilOwn => "crate::rt::OwnNil".into(),
+        Ty::NilOwn | Ty::NilOwnDec | Ty::NilOwnEnc => "crate::rt::OwnNil".into(),
         Ty::OptAlias => "crate::rt::OptU8".into(),
         Ty::BoxOpt(x) => format!("Box<Option<{}>>", ty_text(x, u)),
     }
@@ -37,7 +37,8 @@ pub fn ty_text(t: &Ty, u: &Universe) -> String {
 
 fn field_ty_text(f: &Field, u: &Universe) -> String {
     let t = ty_text(&f.ty, u);
-    if f.optional { format!("Option<{}>", t) } else { t }
+    // the spelling of `Option` must not matter (fully qualified paths are what code generators emit)
+    if f.optional { format!("{}<{}>", ["Option", "std::option::Option", "core::option::Option", "::core::option::Option", "Option"][(f.idx as usize + f.name.len()) % 5], t) } else { t }
 }
 
 fn field_attrs(f: &Field) -> String {
@@ -51,14 +52,22 @@ fn field_attrs(f: &Field) -> String {
         Ty::BytesVec | Ty::BytesSlice | Ty::BytesArr4 | Ty::CowBytes => parts.push("with = \"minicbor::bytes\"".into()),
         Ty::NilWith => { parts.push("with = \"crate::rt::nil_u32\"".into()); parts.push("has_nil".into()) }
         Ty::NilFns => {
-            parts.push("encode_with = \"crate::rt::nil_str::encode\"".into());
-            parts.push("decode_with = \"crate::rt::nil_str::decode\"".into());
-            parts.push("is_nil = \"crate::rt::nil_str::is_nil\"".into());
-            parts.push("nil = \"crate::rt::nil_str::nil\"".into());
-            parts.push("cbor_len = \"crate::rt::nil_str::cbor_len\"".into());
+            // the order of the keys, and their distribution over several #[cbor(..)] attributes, must not matter
+            let mut keys = vec!["encode_with = \"crate::rt::nil_str::encode\"", "decode_with = \"crate::rt::nil_str::decode\"", "is_nil = \"crate::rt::nil_str::is_nil\"", "nil = \"crate::rt::nil_str::nil\"", "cbor_len = \"crate::rt::nil_str::cbor_len\""];
+            let perm = (f.idx as usize * 7 + f.name.len()) % 6;
+            match perm { 1 => keys.swap(0, 1), 2 => { keys.swap(0, 1); keys.swap(2, 3) } 3 => keys = vec![keys[1], keys[3], keys[0], keys[2], keys[4]], 4 => keys = vec![keys[3], keys[1], keys[4], keys[2], keys[0]], 5 => keys.reverse(), _ => {} }
+            if (f.idx as usize + f.name.len()) % 3 == 0 {
+                // split: the first two keys in an attribute of their own, emitted before the rest
+                write!(s, "#[cbor({})] ", keys[.. 2].join(", ")).unwrap();
+                for k in &keys[2 ..] { parts.push(k.to_string()) }
+            } else { for k in keys { parts.push(k.to_string()) } }
         }
+        Ty::NilOwnDec => parts.push("decode_with = \"crate::rt::fwd::decode\"".into()),
+        Ty::NilOwnEnc => parts.push("encode_with = \"crate::rt::fwd::encode\"".into()),
         _ => {}
     }
+    match f.fwd { 1 => parts.push("decode_with = \"crate::rt::fwd::decode\"".into()), 2 => parts.push("encode_with = \"crate::rt::fwd::encode\"".into()),
+                  3 => { write!(s, "#[cbor(decode_with = \"crate::rt::fwd::decode\")] ").unwrap(); parts.push("encode_with = \"crate::rt::fwd::encode\"".into()) } _ => {} }
     if !parts.is_empty() { write!(s, "#[cbor({})]", parts.join(", ")).unwrap() }
     s
 }
@@ -133,7 +142,7 @@ fn model_expr(t: &Ty, x: &str, u: &Universe) -> String {
         Ty::BoxOf(e) => model_expr(e, &format!("(&**{})", x), u),
         Ty::MapU8(e) => format!("{{ let v: Vec<(vcore::Item, vcore::Item)> = {}.iter().map(|(k, e)| (fr.uint(*k as u64), {})).collect(); fr.map(v) }}", x, model_expr(e, "e", u)),
         Ty::Struct(_) | Ty::Enum(_) | Ty::GenericInst(_) | Ty::GenericInstOpt(_) => format!("{}.to_model(fr)", x),
-        Ty::NilWith | Ty::NilOwn => format!("(match {}.0 {{ None => vcore::Item::Null, Some(n) => fr.uint(n as u64) }})", x),
+        Ty::NilWith | Ty::NilOwn | Ty::NilOwnDec | Ty::NilOwnEnc => format!("(match {}.0 {{ None => vcore::Item::Null, Some(n) => fr.uint(n as u64) }})", x),
         Ty::OptAlias => format!("(match *{} {{ None => vcore::Item::Null, Some(n) => fr.uint(n as u64) }})", x),
         Ty::NilFns => format!("(if {}.0.is_empty() {{ vcore::Item::Null }} else {{ fr.text(&{}.0[..]) }})", x, x),
         Ty::Param => format!("crate::rt::ParamModel::pmodel({}, fr)", x),
